@@ -36,7 +36,9 @@ def _rig():
 
 def enc_op(R, op):
     if op[0] == "app":
-        return [0, R.AKINDS.index(op[1]), int(bool(op[2])), int(bool(op[3]))]
+        rt = [int(x) for x in op[4:7]] + [0, 0, 0]
+        return [0, R.AKINDS.index(op[1]), int(bool(op[2])), int(bool(op[3])),
+                int(bool(rt[0])), int(bool(rt[1])), rt[2]]
     if op[0] == "lib":
         return [1, R.LKINDS.index(op[1])]
     if op[0] == "dlv":
@@ -111,6 +113,27 @@ def nonreply_before_first(history, p, mid):
     return False
 
 
+def expected_app_callbacks(history, p, mid):
+    """the property, with retries: every issue / re-issue of the id gets exactly the callback of the
+    first result/error reply after THAT issue (a re-issue happens inside the callback that retries)"""
+    op = history[p]
+    hs, he = bool(op[2]), bool(op[3])
+    rs, re_, left = ([int(x) for x in op[4:7]] + [0, 0, 0])[:3]
+    want, armed = [], True
+    for o in history[p + 1:]:
+        if not armed:
+            break
+        if o[0] == "dlv" and o[1] == mid and o[2] in ("result", "error"):
+            armed = False
+            which = "success" if o[2] == "result" else "error"
+            if (which == "success" and hs) or (which == "error" and he):
+                want.append(["appcb", mid, which, mid, o[2]])
+                if (rs if which == "success" else re_) and left > 0:
+                    left -= 1
+                    armed = True
+    return want
+
+
 def oracle(R, history, impl):
     """-> list of (name, key, detail) property failures observed on the implementation"""
     if "error" in impl:
@@ -128,7 +151,7 @@ def oracle(R, history, impl):
             if ids[0] in issued:
                 fails.append(("id-repeated", None, {"id": ids[0], "pos": p}))
             issued[ids[0]] = (p, op)
-            in_dom = op[0] == "lib" or op[1] in R.IN_DOMAIN or op[1] in ("push", "props", "clean", "privlist")
+            in_dom = True
             if in_dom and (len(sent) != 1 or sent[0][1] != ids[0]):
                 fails.append(("request-not-sent-once", None, {"pos": p, "op": op, "events": ev}))
     for mid, (p, op) in sorted(issued.items()):
@@ -143,17 +166,15 @@ def oracle(R, history, impl):
             if op[1] not in R.IN_DOMAIN:
                 continue
             got = [e for ev in evs for e in ev if e[0] == "appcb" and (e[1] == mid or e[3] == mid)]
-            want = []
-            if want_w == "success" and op[2]:
-                want = [["appcb", mid, "success", mid, "result"]]
-            elif want_w == "error" and op[3]:
-                want = [["appcb", mid, "error", mid, "error"]]
+            want = expected_app_callbacks(history, p, mid)
             if got != want:
                 key = None
                 if nonreply_before_first(history, p, mid):
                     key = "nonreply-iq-with-pending-id-consumes-registration"
                 elif first == "error" and not any(e[2] == "error" for e in got):
                     key = "%s:error-reply-reaches-no-callback" % op[1]
+                elif len(op) > 4 and len(got) < len(want) and got == want[:len(got)]:
+                    key = "retry-from-callback:reply-to-the-retry-reaches-no-callback"
                 fails.append(("app-callbacks", key, {"id": mid, "kind": op[1], "first_reply": first,
                                                      "expected": want, "observed": got}))
         elif op[1] in LIB_EXPECT:
@@ -269,6 +290,25 @@ def systematic(R):
         # non-iq stanzas carrying the pending id
         hs.append(well_shaped(R, [rq] + [["oth", tag, 1] for tag in ("receipt", "ack", "presence", "chatstate")] +
                               [["dlv", 1, "error", "plain"]]))
+    # retries issued from inside the callbacks, every kind
+    for k in R.AKINDS:
+        for (rs, re_, b), pat in [
+            ((0, 1, 1), ["error", "result", "result"]),
+            ((0, 1, 1), ["error", "error", "result"]),
+            ((1, 0, 1), ["result", "result", "error"]),
+            ((1, 1, 2), ["result", "error", "get", "result", "error"]),
+            ((0, 1, 2), ["error", "set", "error", "error", "result"]),
+            ((0, 1, 1), ["result", "error"]),
+            ((1, 1, 0), ["error", "result"]),
+        ]:
+            h = [["app", k, 1, 1, rs, re_, b]] + \
+                [["dlv", 1, t, "plain" if t in ("result", "error") else "sping"] for t in pat]
+            hs.append(well_shaped(R, h))
+        # a retrying request interleaved with another one, no success callback given
+        hs.append(well_shaped(R, [["app", k, 1, 1, 0, 1, 1], ["app", "lastseen", 0, 1, 0, 1, 1],
+                                  ["dlv", 2, "error", "plain"], ["dlv", 1, "error", "plain"],
+                                  ["dlv", 2, "result", "plain"], ["dlv", 1, "result", "plain"],
+                                  ["dlv", 2, "error", "plain"]]))
     # unknown / foreign ids, every type and shape, with something pending
     for t in R.ITYPES:
         for sh in R.SHAPES:
@@ -288,7 +328,10 @@ def random_history(R, rng):
             o, k = rng.choice(allreq)
             if o == "app":
                 fl = (1, 1) if rng.random() < .8 else (rng.randint(0, 1), rng.randint(0, 1))
-                h.append(["app", k, fl[0], fl[1]])
+                if rng.random() < .3:
+                    h.append(["app", k, fl[0], fl[1], rng.randint(0, 1), rng.randint(0, 1), rng.randint(0, 3)])
+                else:
+                    h.append(["app", k, fl[0], fl[1]])
             else:
                 h.append(["lib", k])
             issued.append(len(issued) + 1)
@@ -315,10 +358,11 @@ def random_history(R, rng):
 def exhaustive(R, maxlen, small=False, minlen=1):
     """every history of length minlen..maxlen over 2 ids"""
     if small:
-        reqs = [["app", "ping", 1, 1], ["app", "sync", 1, 1], ["lib", "fetch_send"]]
+        reqs = [["app", "ping", 1, 1, 1, 1, 1], ["app", "sync", 1, 1], ["lib", "fetch_send"]]
         dl = [["dlv", m, t, "plain"] for m in (1, 2) for t in ("result", "error", "get")]
     else:
-        reqs = [["app", "ping", 1, 1], ["app", "sync", 1, 1], ["app", "glist", 1, 1], ["lib", "fetch_send"]]
+        reqs = [["app", "ping", 1, 1], ["app", "sync", 1, 1, 0, 1, 1], ["app", "glist", 1, 1, 1, 1, 2],
+                ["lib", "fetch_send"]]
         dl = [["dlv", m, t, "plain"] for m in (1, 2) for t in R.ITYPES]
     alpha = reqs + dl
     for n in range(minlen, maxlen + 1):
@@ -350,7 +394,8 @@ def table_summary(R, tab):
             ("fwd:%s" % R.LAYERS[r[1]]) if r[0] == 1 else "none"
     return {"routes": routes, "lib": {k: [R.LAYERS[v[0]], v[1], v[2]] for k, v in zip(R.LKINDS, tab[1])},
             "strict_reply": bool(tab[2]), "strict_iface": bool(tab[3]), "cfg_ok": bool(tab[4]),
-            "kinds_not_ok": [k for k, ok in zip(R.AKINDS, tab[5]) if not ok and k in R.IN_DOMAIN]}
+            "kinds_not_ok": [k for k, ok in zip(R.AKINDS, tab[5]) if not ok and k in R.IN_DOMAIN],
+            "late_delete": bool(tab[6]), "late_delete_iface": bool(tab[7])}
 
 
 def coqchk():
@@ -493,11 +538,12 @@ def run(ctx):
     ctx.coverage["correspondence_mismatches"] = mismatches
     ctx.coverage["exhaustive"] = False
     return ctx.finish(
-        rule="a case is a history of application requests (24 kinds x callback flags), library-internal requests "
+        rule="a case is a history of application requests (24 kinds x callback flags x retry-from-callback policy: "
+             "re-issue the same request from inside the success/error callback, bounded), library-internal requests "
              "(key fetch from the 3 axolotl layers, key upload, group info, keep-alive ping), iq deliveries "
              "(id: outstanding / answered / not yet issued / foreign; type result|error|get|set; shape "
              "plain|sync|server-ping) and non-iq stanzas carrying ids; corpus (the _refuted witnesses) first, "
-             "a systematic set (every kind x 9 reply patterns + reply-before-request + missing callbacks + "
+             "a systematic set (every kind x 9 reply patterns + 8 retry-in-callback patterns + reply-before-request + missing callbacks + "
              "non-iq stanzas), every history of length <= 3 (quick) / 4 (thorough) over 12 ops and 2 ids, "
              "seeded random histories with <= 6 outstanding requests; non-trivial = distinct history in which "
              "an iq is delivered for an id issued earlier in it",
